@@ -48,6 +48,36 @@ theorem dead_not_live_partial (H : Bytes → Bytes) (t0 t : Node) (b0 : Trie) (e
     rw [← hk, ← hrk]
     exact hcov r hr
 
+/-- **Dead set ∩ live set = ∅ within a round** — closed form for a round of inserts and deletes on one trie: the
+    event discipline is proved for the emitted events; remaining hypotheses: canonical start tree, fresh collector,
+    key injectivity on the references of the start tree and of the round's events. -/
+theorem dead_not_live (H : Bytes → Bytes) (t0 t : Node) (b0 : Trie) (v : Nat) (es : List Event)
+    (hfresh : b0.cc.changes = [] ∧ b0.cc.deletes = [])
+    (hw : WF t0)
+    (hr : RoundEvents v t0 es t)
+    (hU : KeyInjOn H (fun r => r ∈ refs t0 [] ∨ r ∈ eventRefs es)) :
+    ∀ x ∈ deadKeys H (b0.applyEvents H es), x ∉ nodeKeys H t := by
+  obtain ⟨hd, hc, _⟩ := round_discipline H hr hw hU
+  exact dead_not_live_partial H t0 t b0 es hfresh hd hc
+
+/-- non-vacuity of `dead_not_live`: the round `ins [3] := 66` on the one-leaf tree of version 1, at version 2 -/
+example : ∀ x ∈ deadKeys id ((Trie.open [] (.leaf 1 [3] [65]) 2).applyEvents id ((insertE 2 [66] (.leaf 1 [3] [65]) [] [3]).2 ++ [])),
+    x ∉ nodeKeys id (.leaf 2 [3] [66]) := by
+  have hne : Ref.key id ⟨[], .leaf 1 [3] [65]⟩ ≠ Ref.key id ⟨[], .leaf 2 [3] [66]⟩ := by
+    intro hk
+    simp [Ref.key, key, le64] at hk
+    exact absurd (congrArg List.getLast? hk) (by simp)
+  have hr : RoundEvents 2 (.leaf 1 [3] [65]) ((insertE 2 [66] (.leaf 1 [3] [65]) [] [3]).2 ++ []) (.leaf 2 [3] [66]) := by
+    apply RoundEvents.ins _ _ _ _ _ (by simp)
+    have h2 : (insertE 2 [66] (.leaf 1 [3] [65]) [] [3]).1 = .leaf 2 [3] [66] := by simp [insertE, splitCommon]
+    rw [h2]
+    exact RoundEvents.nil _
+  apply dead_not_live id _ _ (Trie.open [] (.leaf 1 [3] [65]) 2) 2 _ ⟨rfl, rfl⟩ (Or.inr (by simp [WFn])) hr
+  intro a b ha hb hk
+  simp [refs, insertE, splitCommon, eventRefs] at ha hb
+  rcases ha with ha | ha <;> rcases hb with hb | hb <;> subst ha <;> subst hb <;>
+    first | rfl | exact absurd hk hne | exact absurd hk.symm hne
+
 /-- non-vacuity: overwrite the only leaf of a round's start tree; its old key is recorded dead, the new leaf is live -/
 example : ∀ x ∈ deadKeys id ((Trie.open [] (.leaf 1 [3] [65]) 2).applyEvents id (insertE 2 [66] (.leaf 1 [3] [65]) [] [3]).2),
     x ∉ nodeKeys id (insertE 2 [66] (.leaf 1 [3] [65]) [] [3]).1 := by
